@@ -773,6 +773,11 @@ pub(super) fn on_close(k: &mut Kernel, fd: Fd) -> bool {
                 if !wildcard && bind.local_addr != local.ip() {
                     continue;
                 }
+                // A wildcard listener only owns children of its own address
+                // family: `[::]:p` and `0.0.0.0:p` are separate listeners.
+                if bind.local_addr.is_ipv4() != local.ip().is_ipv4() {
+                    continue;
+                }
                 children.push(child_fd);
             }
             for child in children {
